@@ -1,6 +1,7 @@
 package main
 
 import (
+	"encoding/json"
 	"errors"
 	"fmt"
 	"hash/fnv"
@@ -381,6 +382,28 @@ func reportKeys(r *sup.CaseResult, what string, nkeys, unknown, wrong int, first
 	return unknown+wrong > 0
 }
 
+// nestFlat rebuilds the nested object of a flat dotted-key map (keys are prefix free).
+func nestFlat(flat map[string]string) map[string]interface{} {
+	root := map[string]interface{}{}
+	for k, v := range flat {
+		parts := strings.Split(k, ".")
+		cur := root
+		for i, p := range parts {
+			if i == len(parts)-1 {
+				cur[p] = v
+				break
+			}
+			next, ok := cur[p].(map[string]interface{})
+			if !ok {
+				next = map[string]interface{}{}
+				cur[p] = next
+			}
+			cur = next
+		}
+	}
+	return root
+}
+
 // ---- the loader monitor ------------------------------------------------------------------------
 
 func buildFS(l *layout, disk bool) (filesystem.Filespace, func(), error) {
@@ -540,6 +563,44 @@ func runLoad(c *sup.Child, b sup.Batch) {
 			}
 			if u, w, first := checkKeys(i18, keys, l.expect); reportKeys(r, what, len(keys), u, w, first, wit) {
 				return
+			}
+			// reload: every file is rewritten with changed texts for the same keys and the directory
+			// is loaded again into the SAME store (keys already present, sizes unchanged)
+			if idx%2 == 0 && len(keys) > 0 {
+				expect2 := map[string]string{}
+				rewritten := 0
+				for _, f := range l.files {
+					if f.keys == nil {
+						continue
+					}
+					flat := map[string]string{}
+					for k, v := range f.keys {
+						flat[k] = v + " (second edition)"
+					}
+					doc, err := json.Marshal(nestFlat(flat))
+					if err != nil {
+						continue
+					}
+					if err := fs.WriteFile(f.path, doc, 0666); err != nil {
+						r.Inconclusive = "harness: rewrite failed: " + err.Error()
+						return
+					}
+					rewritten++
+				}
+				for k, v := range l.expect {
+					expect2[k] = v + " (second edition)"
+				}
+				workers.MaxJob = maxJob
+				if lerr2 := fsi18loader.Load(nfs, l.base, i18, scp); lerr2 != nil {
+					r.Violate("load-error", fmt.Sprintf("second Load(%q) after rewriting %d files: %v", l.base, rewritten, lerr2), wit)
+					return
+				}
+				u, w, first := checkKeys(i18, keys, expect2)
+				if reportKeys(r, fmt.Sprintf("reload of %q into the same store after rewriting %d files", l.base, rewritten), len(keys), u, w, first, wit) {
+					return
+				}
+				r.AddObs("reloads_checked", 1)
+				r.AddObs("reload_keys_checked", int64(len(keys)))
 			}
 			var absent int64
 			for k := range l.decoy {
